@@ -343,7 +343,7 @@ class Interp:
         ci = CodeInfo.of(code)
         F = Frame(ci, g, fn)
         F.ret = ret
-        self.bind_args(F, code, name, defaults, kwdefaults, args, kwargs)
+        self.bind_args(F, code, name, defaults, kwdefaults, args, kwargs, W)
         if closure:
             for nm, c in zip(code.co_freevars, closure):
                 if isinstance(c, Cell):
@@ -388,7 +388,7 @@ class Interp:
             return
         raise Unsupported(f"generator prologue {op}")
 
-    def bind_args(self, F, code, name, defaults, kwdefaults, args, kwargs):
+    def bind_args(self, F, code, name, defaults, kwdefaults, args, kwargs, W=None):
         argc = code.co_argcount
         kwonly = code.co_kwonlyargcount
         names = code.co_varnames
@@ -423,15 +423,27 @@ class Interp:
             if names[i] not in fast:
                 j = i - (argc - nd)
                 if j >= 0:
-                    fast[names[i]] = defaults[j]
+                    fast[names[i]] = self.default_value(W, defaults[j])
                 else:
                     pyraise(TypeError, f"{name}() missing required positional argument: '{names[i]}'")
         for i in range(argc, argc + kwonly):
             if names[i] not in fast:
                 if kwdefaults and names[i] in kwdefaults:
-                    fast[names[i]] = kwdefaults[names[i]]
+                    fast[names[i]] = self.default_value(W, kwdefaults[names[i]])
                 else:
                     pyraise(TypeError, f"{name}() missing required keyword-only argument: '{names[i]}'")
+
+    @staticmethod
+    def default_value(W, v):
+        """A mutable default argument is ONE object shared by all calls (the classic pitfall).  The real default object
+        must not be mutated by interpreted code (it would leak symbolic values into every other world and into native
+        replays), so each world owns a copy of it - shared between the calls of that world, cloned with the world."""
+        if W is not None and type(v) in (list, dict, set):
+            key = ("default", id(v))
+            if key not in W.tags:
+                W.tags[key] = type(v)(v)
+            return W.tags[key]
+        return v
 
     def deliver(self, W, value, ret):
         """hand a call result to the current top frame according to ret mode"""
